@@ -122,20 +122,22 @@ example : ((Sync.trace {} burstHistory).filter
     (fun oo => match oo.1 with | .ins _ _ => isOk oo.2 | _ => false)).length = 200 := by
   decide +kernel
 
-/-- The bound of `C09_sync_queues_bounded` is attained: after the first 64 inserts outside
-the interval the write queue is exactly at the flush point, and after the next one (which
-performs the maintenance) it holds that insert only. -/
-example : (stateAfter {} {} ([.adv 600000000] ++ burst 64)).writeQ.length
+/-- The bound of `C09_sync_queues_bounded` is attained: after the first `WRITE_LOG_FLUSH_POINT`
+inserts outside the interval the write queue is exactly at the flush point, and after the next
+one (which performs the maintenance) it holds that insert only. (Stated with the generated
+constants, so that a retuning of the flush points re-evaluates the example instead of
+breaking it.) -/
+example : (stateAfter {} {} ([.adv 600000000] ++ burst Gen.WRITE_LOG_FLUSH_POINT)).writeQ.length
       = Gen.WRITE_LOG_FLUSH_POINT ∧
-    (stateAfter {} {} ([.adv 600000000] ++ burst 65)).writeQ.length = 1 ∧
-    (stateAfter {} {} burstHistory).writeQ.length = 1 ∧
+    (stateAfter {} {} ([.adv 600000000] ++ burst (Gen.WRITE_LOG_FLUSH_POINT + 1))).writeQ.length = 1 ∧
+    (stateAfter {} {} burstHistory).writeQ.length ≤ Gen.WRITE_LOG_FLUSH_POINT ∧
     (stateAfter {} {} burstHistory).map.length = 16 := by
   decide +kernel
 
 /-- Reads: 200 `get`s outside the interval never overflow the read queue either. -/
 example : (stateAfter {} {} ([.adv 600000000] ++ (List.range 200).map Op.get)).readQ.length
       ≤ Gen.READ_LOG_FLUSH_POINT ∧
-    (stateAfter {} {} ([.adv 600000000] ++ (List.range 64).map Op.get)).readQ.length
+    (stateAfter {} {} ([.adv 600000000] ++ (List.range Gen.READ_LOG_FLUSH_POINT).map Op.get)).readQ.length
       = Gen.READ_LOG_FLUSH_POINT := by
   decide +kernel
 
